@@ -117,62 +117,78 @@ def run(ctx):
         dup = {k: vs for k, vs in inv.items() if len(vs) > 1}
         ctx.ob("injective", label, not dup, "%s is not injective: %s" % (label, dup), where)
     # 3/4. lookups decided on all inputs
-    # from_abbr: the gated summary may test the argument only by equality with
-    # string literals, so it is a function on {the literals} + {any other string}
+    # from_abbr: the gated summary (and the closures of an iterator search) may use the argument only in
+    # equality comparisons — with string literals or with abbr(prefix) — so it is a function on
+    # {the literals} + {the abbreviations} + {any other string}; evaluated on each class by the model interpreter
+    from . import conc, rules_c09
+
+    class PrefixTable:
+        """the enum as a table for the model interpreter (values are variant names)"""
+        variants_const = order_for_iter = None
+        tables = {}
+        ref_unit_hru = ref_unit_lsu = None
     b = U.body.get(SIP + "::from_abbr")
     if b is None:
         raise ModelError("anchor", "SIPrefix::from_abbr has no body", where)
+    ev = T.Evaluator(U, keep_tags=False)
     try:
-        outs = T.Evaluator(U, keep_tags=False).summarize(b)
+        outs = ev.summarize(b)
+        bad = rules_c09.key_only_compared(outs, ev, ("==",))
     except T.Unsupported as x:
         raise ModelError("lookup", "SIPrefix::from_abbr: unsupported construct %s" % x.what, x.sp or b["span"])
-    p0 = ("p", 0, b["params"][0]["pat"]["name"])
+    ctx.ob("lookup-key-use", "from_abbr", not bad, "from_abbr uses its argument outside equality comparisons (%s)" % bad, b["span"])
     lits = set()
-    for at in T.guard_atoms(outs):
-        a = T.canon(at)
-        if a[0] == "==" and p0 in (a[1], a[2]) and (a[1][0] == "str" or a[2][0] == "str"):
-            lits.add(a[1][1] if a[1][0] == "str" else a[2][1])
-        else:
-            raise ModelError("lookup", "SIPrefix::from_abbr tests its argument other than by equality with a string literal: %s" % T.show(a), b["span"])
 
-    def abbr_result(sval):
-        hit = []
-        for (g, k, t) in outs:
-            okg = True
-            for at, pol in g:
-                a = T.canon(at)
-                lit = a[1][1] if a[1][0] == "str" else a[2][1]
-                if (sval == lit) != pol:
-                    okg = False
-                    break
-            if okg:
-                hit.append((k, T.canon(t)))
-        return hit
+    def collect(t):
+        if isinstance(t, tuple):
+            if t[0] == "str":
+                lits.add(t[1])
+            elif t[0] == "closure":
+                for (g, k, x) in ev.summarize_closure(t, [T.P(100, "u")]):
+                    for a, _p in g:
+                        collect(a)
+                    collect(x)
+            elif t[0] == "app":
+                for x in t[3]:
+                    collect(x)
+            elif t[0] not in ("p", "num", "bool", "variant", "none", "const"):
+                for x in t[1:]:
+                    collect(x)
+    for (g, k, t) in outs:
+        for a, _p in g:
+            collect(a)
+        collect(t)
     want_ab = {abbrs[v][1]: v for v in variants}
-    OTHER = object()
+    OTHER = "\x00<any other string>"
+    cq = PrefixTable()
+    cq.discr = dict(discr)
     for key in sorted(lits | set(want_ab)) + [OTHER]:
-        hit = abbr_result(key)
         label = "<any other string>" if key is OTHER else repr(key)
-        if len(hit) != 1 or hit[0][0] != "val":
-            ctx.fail("lookup", "from_abbr/%s" % label, "from_abbr(%s) has %d applicable outcomes / diverges" % (label, len(hit)), b["span"])
+        try:
+            r = conc.Conc(U, cq, ev).pick(outs, {0: key})
+        except conc.ModelPanic as x:
+            ctx.fail("lookup-total", "from_abbr/%s" % label, "from_abbr(%s) panics: %s" % (label, x), b["span"])
             continue
-        got = hit[0][1]
+        except (conc.CannotEvaluate, T.Unsupported) as x:
+            ctx.fail("lookup", "from_abbr/%s" % label, "cannot evaluate from_abbr(%s): %s" % (label, x), b["span"])
+            continue
+        got = r[1] if r is not None else None
         if key is not OTHER and key in want_ab:
-            exp_t = ("some", ("variant", SIP, want_ab[key]))
-            ctx.ob("lookup-hit", "from_abbr/%r" % key, got == exp_t,
-                   "from_abbr(%r) = %s, but %r is the abbreviation of %s" % (key, T.show(got), key, want_ab[key]), b["span"])
+            ctx.ob("lookup-hit", "from_abbr/%r" % key, got == want_ab[key],
+                   "from_abbr(%r) = %s, but %r is the abbreviation of %s" % (key, got, key, want_ab[key]), b["span"])
         elif key is OTHER:
-            ctx.ob("lookup-default", "from_abbr", got == ("none",), "strings matching no abbreviation do not map to None (%s)" % T.show(got), b["span"])
+            ctx.ob("lookup-default", "from_abbr", got is None, "strings matching no abbreviation do not map to None (%s)" % got, b["span"])
         else:
-            ctx.ob("lookup-miss", "from_abbr/%r" % key, got == ("none",),
-                   "from_abbr(%r) = %s although no prefix has that abbreviation" % (key, T.show(got)), b["span"])
+            ctx.ob("lookup-miss", "from_abbr/%r" % key, got is None,
+                   "from_abbr(%r) = %s although no prefix has that abbreviation" % (key, got), b["span"])
     # from_exp: the gated summary is evaluated for each of the 256 values of i8
     # (integer semantics with overflow checks, see intdom.py)
     b = U.body.get(SIP + "::from_exp")
     if b is None:
         raise ModelError("anchor", "SIPrefix::from_exp has no body", where)
+    ev_exp = T.Evaluator(U, keep_tags=False)
     try:
-        outs = T.Evaluator(U, keep_tags=False).summarize(b)
+        outs = ev_exp.summarize(b)
     except T.Unsupported as x:
         raise ModelError("lookup", "SIPrefix::from_exp: unsupported construct %s" % x.what, x.sp or b["span"])
     ie = intdom.IntEval(8, True)
@@ -186,12 +202,31 @@ def run(ctx):
             ctx.fail("lookup-total", inst, "from_exp(%d) panics: %s" % (x, pnc), b["span"])
             continue
         except intdom.Unsupported as u:
-            ctx.fail("lookup", inst, "cannot evaluate from_exp(%d): %s" % (x, u), b["span"])
-            continue
+            # e.g. an iterator search `iter().find(|p| p.exp() == exp)`: no integer arithmetic on the key involved
+            try:
+                from fractions import Fraction
+                if any(T.has_arith(a) for (g, _k, _t) in outs for a, _p in g):
+                    raise conc.CannotEvaluate(str(u))
+                r = conc.Conc(U, cq, ev_exp).pick(outs, {0: Fraction(x)})
+                k, t = "val", (("some", ("variant", SIP, r[1])) if r is not None else ("none",))
+            except (conc.CannotEvaluate, conc.ModelPanic, T.Unsupported) as u2:
+                ctx.fail("lookup", inst, "cannot evaluate from_exp(%d): %s" % (x, u2), b["span"])
+                continue
         if k != "val":
             ctx.fail("lookup-total", inst, "from_exp(%d) diverges" % x, b["span"])
             continue
         got = T.canon(t)
+        if not (got == ("none",) or (got[0] == "some" and got[1][0] == "variant")):
+            # the selected result is itself a search expression: evaluate it on the table
+            try:
+                from fractions import Fraction
+                if T.has_arith(got):
+                    raise conc.CannotEvaluate("arithmetic in the result expression")
+                r = conc.Conc(U, cq, ev_exp).eval(got, {0: Fraction(x)})
+                got = ("some", ("variant", SIP, r[1])) if r is not None else ("none",)
+            except (conc.CannotEvaluate, conc.ModelPanic, T.Unsupported) as u2:
+                ctx.fail("lookup", inst, "cannot evaluate from_exp(%d): %s" % (x, u2), b["span"])
+                continue
         if x in want_exp:
             ctx.ob("lookup-hit", inst, got == ("some", ("variant", SIP, want_exp[x])),
                    "from_exp(%d) = %s, but %d is the exponent of %s" % (x, T.show(got), x, want_exp[x]), b["span"])
